@@ -90,6 +90,9 @@ def judge_acyclic(tp, p, res):
                 kind = "same-file-two-spellings-differ" if isinstance(doc.get("val"), (int, float)) and doc.get("val", 0) >= 1000000 else "wrong-value"
                 res.violation([kind, cfg], witness, {"expected": {"val": expect_val, "inc": expect_inc}, "got": doc})
                 return
+            if "TRACE: \"DECOY\"" in ev["stderr"]:
+                res.violation(["file-nobody-imports-was-evaluated", cfg], witness, {"stderr": ev["stderr"][-300:]})
+                return
             ids = sorted(TRACE_RE.findall(ev["stderr"]))
             if ids != expect_ids:
                 from collections import Counter
